@@ -51,6 +51,17 @@ Correspondence streams (canonical digest of BOTH indexes compared with the model
                   burst histories.  Oracle/model as in the vlan streams: the next hop is the
                   ROUTER that announced (its own address, never the relaying BBMD), newest wins,
                   traffic afterwards is unicast to that router.
+  wave 6:         (a) direct-call streams (enum, wide, random): in HALF of the histories the destination
+                  lists are long-lived caller-owned objects, one per router, refilled in place
+                  (slice assignment / del+extend / pop+append), passed, and changed again after the
+                  call (append / remove / clear): results must equal the model's for the contents at
+                  call time (a cache that keeps the argument by reference is caught);
+                  (b) boundary network numbers {1, 255, 256, 32767, 32768, 40000, 65534} as
+                  hand-encoded octets in every real-message rig: deterministic boundary-* histories
+                  (stub wires, vlan, B/IP simple, B/IP foreign) and half of the random node / vlan /
+                  bip histories draw their destinations from that set.
+                  The debug-flags pass of harness/core.py runs all streams, enum one level
+                  shallower (<=3) and node-enum40 <=2.
 
 Implementation-side oracle (independent of the model), after every operation:
   * Coherent, evaluated on the real object by identity:
@@ -99,6 +110,9 @@ SNETS = [5, 6]
 ROUTERS = [1, 2, 3]
 DNETS = [10, 11, 12, 13]
 PROBE_DST = 9
+# boundary network numbers (wave 6): one/two-octet edges and both sides of the sign bit of the 16-bit
+# field; real messages carry them as hand-encoded octets, so the library's decoders are exercised
+BDNETS = [1, 255, 256, 32767, 32768, 40000, 65534]
 
 # ------------------------------------------------------------------ alphabets
 # cache op:  ["u",s,a,[ds],st] | ["s",s,a,st] | ["d",s,a|None,[ds]|None] | ["r",old,new]
@@ -231,15 +245,59 @@ def err_kind(e):
     return "python:" + type(e).__name__
 
 
-def apply_op(cache, op):
+ALIAS_JUNK = 4242          # put into a caller-owned list AFTER the call: the cache must not see it
+
+
+def alias_call(lists, key, ds, call):
+    """the caller keeps ONE list object per router, refills it IN PLACE, passes it, and goes on changing it
+    afterwards (a cache that remembers the argument by reference instead of copying what it needs sees
+    those changes).  `lists`: {key: [list object, number of calls so far]}"""
+    ent = lists.get(key)
+    if ent is None:
+        ent = lists[key] = [[], 0]
+    lst, n = ent
+    ent[1] = n + 1
+    # refill in place, three ways
+    if n % 3 == 0:
+        lst[:] = ds
+    elif n % 3 == 1:
+        del lst[:]
+        lst.extend(ds)
+    else:
+        while lst:
+            lst.pop()
+        for d in ds:
+            lst.append(d)
+    try:
+        call(lst)
+    finally:
+        # ... and keep using the list: append / remove / clear
+        if n % 3 == 0:
+            lst.append(ALIAS_JUNK)
+        elif n % 3 == 1 and lst:
+            lst.remove(lst[0])
+        else:
+            del lst[:]
+
+
+def apply_op(cache, op, lists=None):
+    """one public call; with `lists` the destination lists are long-lived caller-owned objects (alias_call)"""
     k = op[0]
     if k == "u":
-        cache.update_router_info(op[1], addr(op[2]), list(op[3]), op[4])
+        if lists is None:
+            cache.update_router_info(op[1], addr(op[2]), list(op[3]), op[4])
+        else:
+            alias_call(lists, ("u", op[2]), op[3],
+                       lambda lst: cache.update_router_info(op[1], addr(op[2]), lst, op[4]))
     elif k == "s":
         cache.update_router_status(op[1], addr(op[2]), op[3])
     elif k == "d":
-        cache.delete_router_info(op[1], None if op[2] is None else addr(op[2]),
-                                 None if op[3] is None else list(op[3]))
+        if lists is None or op[3] is None:
+            cache.delete_router_info(op[1], None if op[2] is None else addr(op[2]),
+                                     None if op[3] is None else list(op[3]))
+        else:
+            alias_call(lists, ("d", op[2]), op[3],
+                       lambda lst: cache.delete_router_info(op[1], None if op[2] is None else addr(op[2]), lst))
     elif k == "r":
         cache.update_source_network(op[1], op[2])
     else:
@@ -374,12 +432,16 @@ def lookup_key(op, i):
     return (op[1], DNETS[i % len(DNETS)])
 
 
-def run_real_seq(ctx, case, ops, every=False, lookups=True, look=None):
+def run_real_seq(ctx, case, ops, every=False, lookups=True, look=None, alias=False):
     """fresh real cache, apply ops, oracle; returns (per-op replies if every else final digest);
-    `look` (a list) receives one get_router_info reply per operation"""
+    `look` (a list) receives one get_router_info reply per operation; `alias`: destination lists are
+    long-lived caller-owned objects changed in place between and after the calls (alias_call)"""
     from bacpypes.netservice import RouterInfoCache
     cache = RouterInfoCache()
     m = {}
+    lists = {} if alias else None
+    if alias:
+        case = dict(case, alias=True)
     replies = []
     last = len(ops) - 1
     r = "ok"
@@ -388,7 +450,7 @@ def run_real_seq(ctx, case, ops, every=False, lookups=True, look=None):
         ok = True
         case = dict(whole, ops=ops[:i + 1]) if every else whole
         try:
-            apply_op(cache, op)
+            apply_op(cache, op, lists)
             r = "ok"
         except core.Infra:
             raise
@@ -404,7 +466,9 @@ def run_real_seq(ctx, case, ops, every=False, lookups=True, look=None):
         if r == "ok":
             abs_apply(m, op)
         if every or i == last:
-            ok = check_state(ctx, case, cache, m, "after op %d %r" % (i, op))
+            ok = check_state(ctx, case, cache, m, "after op %d %r%s" % (
+                i, op, " [destination lists: one caller-owned list per router, refilled in place, changed after "
+                       "each call]" if alias else ""))
             if ok and lookups:
                 nets = {k[0] for k in m} | {op[1]} | ({op[2]} if op[0] == "r" else set())
                 ok = check_lookups(ctx, case, cache, m, nets, DNETS, "after op %d" % i)
@@ -457,19 +521,13 @@ def op_letter(op):
 
 
 def make_fast(alpha):
-    """per-letter closures on the real cache / the reference map (alphabet without refused calls)"""
+    """per-letter closures on the real cache / the reference map (alphabet without refused calls);
+    closure(cache, lists): lists None = fresh argument lists, else long-lived ones (alias_call)"""
     real, ref = [], []
     for op in alpha:
         k = op[0]
-        if k == "u":
-            real.append(lambda c, s=op[1], a=addr(op[2]), ds=tuple(op[3]), st=op[4]:
-                        c.update_router_info(s, a, list(ds), st))
-        elif k == "d" and not (op[2] is None and op[3] is None):
-            real.append(lambda c, s=op[1], a=(None if op[2] is None else addr(op[2])),
-                        ds=(None if op[3] is None else tuple(op[3])):
-                        c.delete_router_info(s, a, None if ds is None else list(ds)))
-        elif k == "r":
-            real.append(lambda c, o=op[1], n=op[2]: c.update_source_network(o, n))
+        if k in ("u", "r") or (k == "d" and not (op[2] is None and op[3] is None)):
+            real.append(lambda c, lists, op=op: apply_op(c, op, lists))
         else:
             return None, None
         ref.append(lambda m, op=op: abs_apply(m, op))
@@ -531,9 +589,11 @@ def shard_enum(ctx, spec):
             if real is not None:
                 # fast path: same real calls, same oracle, no bookkeeping
                 cache, m = RouterInfoCache(), {}
+                alias = sum(idx) % 2 == 1         # half of the histories: caller-owned lists, changed in place
+                lists = {} if alias else None
                 try:
                     for i in idx:
-                        real[i](cache)
+                        real[i](cache, lists)
                         ref[i](m)
                     if quick_ok(cache, m):
                         d = cache_digest(cache)
@@ -542,12 +602,13 @@ def shard_enum(ctx, spec):
             if d is None:
                 ops = [alpha[i] for i in idx]
                 case = {"stream": stream, "ops": ops}
-                d = run_real_seq(ctx, case, ops, every=False, lookups=True) if ops else "|"
+                d = run_real_seq(ctx, case, ops, every=False, lookups=True,
+                                 alias=(sum(idx) % 2 == 1)) if ops else "|"
             total += 1
             if mds is not None:
                 if d != mds[wi]:
-                    ctx.disagree(stream, {"stream": stream, "ops": [alpha[i] for i in idx]},
-                                 {"d": d}, {"d": mds[wi]})
+                    ctx.disagree(stream, {"stream": stream, "ops": [alpha[i] for i in idx],
+                                          "alias": sum(idx) % 2 == 1}, {"d": d}, {"d": mds[wi]})
             word = "".join(letters[i] for i in idx)
             sg = (word, shape(d))
             sigs[sg] = sigs.get(sg, 0) + 1
@@ -573,10 +634,10 @@ def enum_specs(alpha_name, n_alpha, maxlen, plen, per_shard, model, stream):
 
 # ------------------------------------------------------------------ lockstep on one cache (random, corpus)
 
-def run_lockstep_cache(ctx, stream, ops, probes_every=7):
+def run_lockstep_cache(ctx, stream, ops, probes_every=7, alias=False):
     case = {"stream": stream, "ops": ops}
     look = []
-    a = run_real_seq(ctx, case, ops, every=True, lookups=True, look=look)
+    a = run_real_seq(ctx, case, ops, every=True, lookups=True, look=look, alias=alias)
     n = len(a)
     if ctx.model_ok:
         drv = core.Driver("drv_c19")
@@ -969,7 +1030,7 @@ def run_lockstep_node(ctx, stream, cfg_name, evs):
     return a
 
 
-def gen_random_evs(rng, length, cfg_name):
+def gen_random_evs(rng, length, cfg_name, DNETS=DNETS):
     nports = len(NODE_CFGS[cfg_name]["ports"])
     nets = [5, 6, 7]
     dn = DNETS + [5, 6]
@@ -1317,8 +1378,8 @@ def shard_bip_pairs(ctx, spec):
     run_bip_histories(ctx, "bip-" + spec["mode"], spec["mode"], hs, spec["model"])
 
 
-def gen_bip_bursts(rng, length):
-    bursts = gen_random_bursts(rng, length, "bip")
+def gen_bip_bursts(rng, length, dnets=DNETS):
+    bursts = gen_random_bursts(rng, length, "bip", dnets)
     for b in bursts:
         for ev in b:
             if ev[0] == "orig" and ev[1] == 5:
@@ -1330,7 +1391,7 @@ def shard_bip_random(ctx, spec):
     for i in range(spec["first"], spec["first"] + spec["count"]):
         rng = ctx.sub_rng("c19-bip-%d" % i)
         mode = ["foreign", "simple"][i % 2]
-        bursts = gen_bip_bursts(rng, 300)
+        bursts = gen_bip_bursts(rng, 300, BDNETS if (i // 2) % 2 == 1 else DNETS)
         nf = len(ctx.failures)
         done = run_bip_histories(ctx, "bip-random-" + mode, mode, [bursts], spec["model"])
         if len(ctx.failures) > nf:
@@ -1465,9 +1526,9 @@ def run_lockstep_vlan(ctx, stream, cfg_name, bursts):
     return a
 
 
-def gen_random_bursts(rng, length, cfg_name):
+def gen_random_bursts(rng, length, cfg_name, dnets=DNETS):
     """a random history whose frame events are grouped into bursts of 1..4"""
-    evs = gen_random_evs(rng, length, cfg_name)
+    evs = gen_random_evs(rng, length, cfg_name, dnets)
     bursts, cur = [], []
     for ev in evs:
         if is_frame_event(ev):
@@ -1518,7 +1579,7 @@ def shard_vlan_random(ctx, spec):
     for i in range(spec["first"], spec["first"] + spec["count"]):
         rng = ctx.sub_rng("c19-vlan-%d" % i)
         cfg = ["learned", "unknown", "single"][i % 3]
-        bursts = gen_random_bursts(rng, 300, cfg)
+        bursts = gen_random_bursts(rng, 300, cfg, BDNETS if (i // 3) % 2 == 1 else DNETS)
         nf = len(ctx.failures)
         ctx.model_ok = spec["model"]
         a = run_lockstep_vlan(ctx, "vlan-bursts", cfg, bursts)
@@ -1535,6 +1596,28 @@ def shard_vlan_random(ctx, spec):
         if i < 1:
             ctx.sample({"stream": "vlan-bursts", "cfg": cfg, "bursts": bursts[:4],
                         "digest_after_4": a[min(3, len(a) - 1)]["d"]})
+
+
+def boundary_history(d, d2):
+    """router 1 announces d; router 2 announces d and d2 (newest wins); routed traffic reveals d2 behind
+    router 3; traffic to both; forget router 3; traffic again"""
+    return [["iam", 0, 1, [d]], ["orig", d, PROBE_DST], ["iam", 0, 2, [d, d2]], ["orig", d, PROBE_DST],
+            ["routed", 0, 3, d2], ["orig", d2, PROBE_DST], ["forget", 5, 3, None], ["orig", d2, PROBE_DST],
+            ["iam", 0, 3, [d2, d, 1]], ["orig", d, PROBE_DST]]
+
+
+def shard_boundary(ctx, spec):
+    """every boundary network number through every real-message rig (stub wires, vlan, B/IP simple, B/IP
+    foreign): the announced number must be the number learned, looked up and written into frames"""
+    for k, d in enumerate(BDNETS):
+        d2 = BDNETS[(k + 3) % len(BDNETS)]
+        evs = boundary_history(d, d2)
+        ctx.model_ok = spec["model"]
+        run_lockstep_node(ctx, "boundary-node", "learned", evs)
+        run_lockstep_vlan(ctx, "boundary-vlan", "learned", [[e] for e in evs])
+        run_lockstep_vlan(ctx, "boundary-vlan", "single", [evs[0:1], [evs[2], evs[4]]] + [[e] for e in evs[5:]])
+        for mode in ("simple", "foreign"):
+            run_bip_histories(ctx, "boundary-bip-" + mode, mode, [[[e] for e in evs]], spec["model"])
 
 
 def longrun_boundaries(limit):
@@ -1659,7 +1742,7 @@ def run_case(ctx, case, stream=None):
         if case.get("probes") and len(a) == len(case["evs"]):
             run_lockstep_node(ctx, stream, cfg, case["evs"] + [["orig", d, x] for d, x in case["probes"]])
     else:
-        run_lockstep_cache(ctx, stream, case["ops"])
+        run_lockstep_cache(ctx, stream, case["ops"], alias=bool(case.get("alias")))
 
 
 def run_corpus(ctx):
@@ -1678,6 +1761,9 @@ def run(ctx):
     model = bool(ctx.model_ok)
     quick = ctx.quick
     specs = []
+    # the debug-flags pass (harness/core.py repeats the quick streams in a child with the library's _debug
+    # flags on) runs every stream too, but the two heaviest exhaustive ones one level shallower
+    dbg = os.environ.get("VERIF_DEBUGFLAGS") in ("1", "2")
     # real vlan + real scheduler: the long-lived process first (longest single shard)
     specs.append(("shard_longrun", {"target": 70000 if quick else 140000, "model": model}))
     nfl = len(frame_letters())
@@ -1701,9 +1787,10 @@ def run(ctx):
     nbr = 4 if quick else 64
     for i in range(0, nbr, 2):
         specs.append(("shard_bip_random", {"first": i, "count": 2, "model": model}))
+    specs.append(("shard_boundary", {"model": model}))
     # exhaustive cache histories
     if quick:
-        specs += [("shard_enum", s) for s in enum_specs("a40", 40, 4, 2, 25, model, "enum")]
+        specs += [("shard_enum", s) for s in enum_specs("a40", 40, 3 if dbg else 4, 2, 25, model, "enum")]
         specs += [("shard_enum", s) for s in enum_specs("wide", len(alphabet_wide()), 2, 1, 8, model, "wide")]
     else:
         specs += [("shard_enum", s) for s in enum_specs("a40", 40, 5, 2, 2, model, "enum")]
@@ -1713,7 +1800,7 @@ def run(ctx):
     for s in enum_specs(None, n66, 2, 1, 3, model, "node-enum66"):
         s.update(routed=True, cfg="learned")
         specs.append(("shard_node_enum", s))
-    for s in enum_specs(None, 40, 3 if quick else 4, 2, 50 if quick else 5, model, "node-enum40"):
+    for s in enum_specs(None, 40, (2 if dbg else 3) if quick else 4, 2, 50 if quick else 5, model, "node-enum40"):
         s.update(routed=False, cfg="learned")
         specs.append(("shard_node_enum", s))
     # random streams, sharded as well
@@ -1722,7 +1809,7 @@ def run(ctx):
         specs.append(("shard_random", {"first": i, "count": 4, "model": model}))
     core.run_shards(ctx, "harness.c19", "shard_any", specs)
     ctx.exhaustive = True
-    ctx.extra["exhaustive_history_length"] = {"cache": 4 if quick else 5, "cache_wide": 2 if quick else 3,
+    ctx.extra["exhaustive_history_length"] = {"cache": (3 if dbg else 4) if quick else 5, "cache_wide": 2 if quick else 3,
                                               "node40": 3 if quick else 4, "node66": 2}
     for st in ("enum", "random", "node-enum40", "node-random", "vlan-burst-pairs", "vlan-bursts", "vlan-longrun",
                "bip-foreign", "bip-simple", "bip-random-foreign", "bip-random-simple"):
@@ -1747,9 +1834,9 @@ def shrink(seq, still_fails, budget=500):
     return seq
 
 
-def _fails_cache(ops, kind):
+def _fails_cache(ops, kind, alias=False):
     sub = core.Ctx("C19", "quick", 0)
-    run_real_seq(sub, {"stream": "shrink", "ops": ops}, ops, every=True)
+    run_real_seq(sub, {"stream": "shrink", "ops": ops}, ops, every=True, alias=alias)
     return any(f["kind"] == kind for f in sub.failures)
 
 
@@ -1763,18 +1850,20 @@ def shard_random(ctx, spec):
     for i in range(spec["first"], spec["first"] + spec["count"]):
         rng = ctx.sub_rng("c19-random-%d" % i)
         ops = gen_random_ops(rng, 300, rich=(i % 2 == 1))
+        alias = (i // 2) % 2 == 1        # half of the histories: caller-owned lists, changed in place
         nf = len(ctx.failures)
-        a = run_lockstep_cache(ctx, "random", ops)
+        a = run_lockstep_cache(ctx, "random", ops, alias=alias)
         if len(ctx.failures) > nf:
             # minimise the first new failure: the replay should name a short history
             rec = ctx.failures[nf]
-            small = shrink(rec["case"]["ops"], lambda o: _fails_cache(o, rec["kind"]))
+            small = shrink(rec["case"]["ops"], lambda o: _fails_cache(o, rec["kind"], alias))
             del ctx.failures[nf:]
-            run_real_seq(ctx, {"stream": "random", "ops": small, "shrunk_from": len(ops)}, small, every=True)
+            run_real_seq(ctx, {"stream": "random", "ops": small, "shrunk_from": len(ops)}, small, every=True,
+                         alias=alias)
         if i < 2:
             ctx.sample({"stream": "random", "ops": ops[:6], "digest_after_6": a[min(5, len(a) - 1)]["d"]})
         cfg = ["learned", "unknown", "single"][i % 3]
-        evs = gen_random_evs(rng, 300, cfg)
+        evs = gen_random_evs(rng, 300, cfg, BDNETS if (i // 3) % 2 == 1 else DNETS)
         nf = len(ctx.failures)
         b = run_lockstep_node(ctx, "node-random", cfg, evs)
         if len(ctx.failures) > nf:
@@ -1796,7 +1885,8 @@ def search(ctx):
         if "ops" in case:
             for op in alphabet40() + alphabet_wide():
                 ops = case["ops"] + [op]
-                run_real_seq(ctx, {"stream": "search", "ops": ops}, ops, every=True)
+                run_real_seq(ctx, {"stream": "search", "ops": ops}, ops, every=True, alias=(i % 2 == 1))
+                run_real_seq(ctx, {"stream": "search", "ops": ops}, ops, every=True, alias=True)
                 seen += 1
         elif "evs" in case:
             for ev in node_alphabet(True):
@@ -1809,7 +1899,7 @@ def search(ctx):
     for i in range(200):
         rng = ctx.sub_rng("c19-search-%d" % i)
         ops = gen_random_ops(rng, 300, rich=True)
-        run_real_seq(ctx, {"stream": "search", "ops": ops}, ops, every=True)
+        run_real_seq(ctx, {"stream": "search", "ops": ops}, ops, every=True, alias=(i % 2 == 1))
         cfg = ["learned", "unknown", "single"][i % 3]
         evs = gen_random_evs(rng, 300, cfg)
         run_real_node(ctx, {"stream": "search", "cfg": cfg, "evs": evs}, cfg, evs, [], every=True)
